@@ -396,3 +396,8 @@ def run(ctx):
                               "n_disagree": len(failing)}))
     elif failing is not None:
         ctx.coverage["correspondence_disagreements"] = 0
+    # C11 composed with the PANTR loop: Properties_PANTRDIR.v (every direction call of every run of PANTR<NewtonTRDirection> satisfies the
+    # guarantees above on its reduced model) + whole runs of the real PANTRSolver<NewtonTRDirection> against PantrDir.v / DirectionsTR.v / Steihaug.v,
+    # with THIS oracle (oracle(), Newton-TR branch) on every recorded direction call of the exact-Hessian runs
+    from vf.props import PANTRDIR
+    PANTRDIR.attach(ctx, scale=0.3, c11_prefix="C11")
